@@ -338,10 +338,10 @@ func lexComment(l *lexer) stateFn {
 		return lexEOF
 	}
 
-	for unicode.IsSpace(rune(l.input[l.pos+i-1])) {
-		i -= 1
-	}
-	l.pos += i
+	// Leave trailing whitespace (e.g. the CR of a CRLF line end) to the
+	// interrupted state; trim only what both states skip
+	comment := strings.TrimRight(l.input[l.pos:l.pos+i], " \t\r\n")
+	l.pos += len(comment)
 	l.emit(tokenTypeComment)
 	return l.lastState
 }
